@@ -420,7 +420,8 @@ def leaf_feature(tree: ast.AST) -> Optional[str]:
             v = n.value
             if type(v) is int and v.bit_length() > 14000:
                 return "leaf:huge-int-ValueError"
-            if isinstance(v, bytes) and b"'" in v and b'"' not in v:
+            if isinstance(v, bytes) and any(b"'" in ln and b'"' not in ln for ln in [v] + v.split(b"\n")):
+                # repr() switches to double quotes for the value (or, in the multi-line form, for one line)
                 return "leaf:bytes-quote-unescaped"
             if isinstance(v, str) and "\x00" in v:
                 return "leaf:nul-dropped"
